@@ -1198,13 +1198,42 @@ func eq(lhs, rhs reflect.Value) bool {
 		return ok && v1 == v2
 	}
 
-	// Arrays and maps are compared with a deep equal
+	// Arrays and maps are compared structurally: member by
+	// member, with this function. (reflect.DeepEqual would
+	// distinguish values that are equal here, e.g. the different
+	// representations of null, or equal numbers of different
+	// Go types.)
 	if jtypes.IsArray(lhs) && jtypes.IsArray(rhs) {
-		return reflect.DeepEqual(lhs.Interface(), rhs.Interface())
+
+		lhs, rhs = jtypes.Resolve(lhs), jtypes.Resolve(rhs)
+		if lhs.Len() != rhs.Len() {
+			return false
+		}
+
+		for i, N := 0, lhs.Len(); i < N; i++ {
+			if !eq(lhs.Index(i), rhs.Index(i)) {
+				return false
+			}
+		}
+
+		return true
 	}
 
 	if jtypes.IsMap(lhs) && jtypes.IsMap(rhs) {
-		return reflect.DeepEqual(lhs.Interface(), rhs.Interface())
+
+		lhs, rhs = jtypes.Resolve(lhs), jtypes.Resolve(rhs)
+		if lhs.Len() != rhs.Len() {
+			return false
+		}
+
+		for _, key := range lhs.MapKeys() {
+			v1, v2 := lhs.MapIndex(key), rhs.MapIndex(key)
+			if !v2.IsValid() || !eq(v1, v2) {
+				return false
+			}
+		}
+
+		return true
 	}
 
 	// Null is equal to null and to nothing else. Note that
